@@ -16,6 +16,10 @@ package main
 //            chain (the chain's utxo set changes; the chain removes them from the pool)
 //   expire   TxPool.ExpireOrphan at a time chosen relative to the orphans' expirations
 //   reject   a dust / overspending transaction is refused before the pool
+//   round    (concurrent stream, conc.go) several Chain.ValidateTx calls from goroutines of
+//            their own, lined up after their HaveTransaction check and released into the pool
+//            with chosen store lookups stalled and released in a chosen order; sometimes a
+//            RemoveTransaction / ExpireOrphan in between
 // After every operation the four maps are snapshotted through the verif hook.
 //
 // Direct oracle (Go only, on the snapshot): (i) output index = original outputs
@@ -23,10 +27,15 @@ package main
 // output it spends, every index entry points to a live orphan spending that
 // output; (iii) pool and orphans disjoint; (iv) after a submission no orphan is
 // complete (all inputs available) unless it already was before the submission,
-// and the submitted transaction itself is not a complete orphan.
+// and the submitted transaction itself is not a complete orphan.  The same predicate
+// is applied to the state a concurrent round leaves behind (pre = before the round,
+// submitted = every transaction of the round).
 //
 // Correspondence: per operation the isOrphan flag and the sorted dump of the
-// four maps against C22.Run.run_case.
+// four maps against C22.Run.run_case; a round of submissions is compared as the
+// sequential order in which the submissions' own store lookups began (they begin
+// under the pool's write lock), C22.Run.run_case_conc; from a round with a removal or
+// an expiry on (position among the submissions unknown) only the oracle runs.
 //
 // Cases run in child processes (a panic in the chain's goroutines kills the
 // process); each child builds the template chain once and copies it per case.
@@ -68,11 +77,12 @@ type TxSpec struct {
 }
 
 type OpSpec struct {
-	K    string `json:"k"`              // submit remove confirm expire reject
-	T    int    `json:"t,omitempty"`    // transaction label (0 = unknown id for remove)
-	Ts   []int  `json:"ts,omitempty"`   // confirm: labels in block order
-	Cut  int    `json:"cut,omitempty"`  // expire: number of orphans (by expiration) below the cut
-	Mode string `json:"mode,omitempty"` // expire: at | after | all | none;  reject: dust | overspend
+	K     string     `json:"k"`               // submit remove confirm expire reject round
+	T     int        `json:"t,omitempty"`     // transaction label (0 = unknown id for remove)
+	Ts    []int      `json:"ts,omitempty"`    // confirm: labels in block order
+	Cut   int        `json:"cut,omitempty"`   // expire: number of orphans (by expiration) below the cut
+	Mode  string     `json:"mode,omitempty"`  // expire: at | after | all | none;  reject: dust | overspend
+	Round *RoundSpec `json:"round,omitempty"` // round: concurrent submissions under a schedule (conc.go)
 }
 
 type CaseSpec struct {
@@ -97,12 +107,14 @@ type CaseResult struct {
 }
 
 type BatchArgs struct {
-	Seed   uint64 `json:"seed"`
-	First  int    `json:"first"`
-	N      int    `json:"n"`
-	Corpus bool   `json:"corpus"`
-	Dir    string `json:"dir"`
-	Tmpl   string `json:"tmpl"`
+	Seed   uint64    `json:"seed"`
+	First  int       `json:"first"`
+	N      int       `json:"n"`
+	Corpus bool      `json:"corpus"`
+	Conc   bool      `json:"conc"`             // the concurrent stream: operation lists with rounds
+	Replay *CaseSpec `json:"replay,omitempty"` // run exactly this case (its recorded operation list) and nothing else
+	Dir    string    `json:"dir"`
+	Tmpl   string    `json:"tmpl"`
 }
 
 // ---------------------------------------------------------------- the world of one case
@@ -137,6 +149,7 @@ const ttlTicks = 600
 type caseRun struct {
 	e         *env
 	n         *cl.Node
+	ss        *slowStore
 	tip       *cl.BlockInfo
 	r         *Rng
 	spec      CaseSpec
@@ -154,14 +167,18 @@ type caseRun struct {
 	withdr    map[bc.Hash]map[bc.Hash]bool // orphan id -> outputs withdrawn from under it
 	counts    map[string]int
 	fails     []Fail
-	iops      []string
-	obs       []string
+	iops      []string   // one model operation per step
+	obs       [][]string // the step's result entries (one; a round: one per submission)
+	isRound   []bool
+	hadRound  bool
 	sawOrph   bool
 	sawPool   bool
 	rejectK   int
-	submitted *txInfo // the transaction of the submission being recorded
-	outside   bool    // the history has left the guard of the theorem (withdrawal, shared output ids)
-	cut       int     // number of leading steps compared with the model (-1: all)
+	submitted []*txInfo    // the transaction(s) of the submission / round being recorded
+	exempt    map[int]bool // labels a RemoveTransaction of the round being recorded was aimed at
+	exemptAll bool         // the round being recorded had an ExpireOrphan
+	outside   bool         // the history has left the guard of the theorem (withdrawal, shared output ids)
+	cut       int          // number of leading steps compared with the model (-1: all)
 }
 
 func copyDir(src, dst string) error {
@@ -272,11 +289,11 @@ func (e *env) newCase(r *Rng, spec CaseSpec) (*caseRun, error) {
 	if err := copyDir(e.tmpl, dir); err != nil {
 		return nil, err
 	}
-	n, err := cl.NewNode(dir)
+	n, ss, err := newSlowNode(dir)
 	if err != nil {
 		return nil, err
 	}
-	c.n = n
+	c.n, c.ss = n, ss
 	return c, nil
 }
 
@@ -420,7 +437,7 @@ func (c *caseRun) fail(step int, class, msg string) {
 }
 
 // the property predicate on the implementation's maps
-func (c *caseRun) oracle(step int, kind string, submitted *txInfo, pre, post *protocol.VerifPoolSnapshot) {
+func (c *caseRun) oracle(step int, kind string, submitted []*txInfo, pre, post *protocol.VerifPoolSnapshot) {
 	pooled := map[bc.Hash]bool{}
 	for _, h := range post.Pool {
 		pooled[h] = true
@@ -503,9 +520,19 @@ func (c *caseRun) oracle(step int, kind string, submitted *txInfo, pre, post *pr
 		}
 	}
 	// (iv)
-	if kind == "submit" && submitted != nil {
-		if _, isOrphan := post.Orphans[submitted.Tx.ID]; isOrphan && c.complete(post, submitted) {
-			c.fail(step, "complete-orphan-after-own-submission", fmt.Sprintf("transaction %d was submitted with all its parents available and sits in orphans", submitted.Label))
+	if kind == "submit" {
+		for _, sub := range submitted {
+			if _, isOrphan := post.Orphans[sub.Tx.ID]; isOrphan && c.complete(post, sub) {
+				class := "complete-orphan-after-own-submission"
+				if len(c.withdr[sub.Tx.ID]) > 0 {
+					class = "withdrawn-parent"
+				}
+				c.fail(step, class, fmt.Sprintf("transaction %d was submitted, all its parents are available and it sits in orphans", sub.Label))
+			}
+			// ... it is pooled (unless the same round removed it again or expired orphans)
+			if _, isOrphan := post.Orphans[sub.Tx.ID]; !isOrphan && !pooled[sub.Tx.ID] && c.complete(post, sub) && !c.exemptAll && !c.exempt[sub.Label] {
+				c.fail(step, "complete-submission-not-pooled", fmt.Sprintf("transaction %d was submitted and accepted, all its parents are available, and it is neither pooled nor an orphan", sub.Label))
+			}
 		}
 	}
 	if kind == "submit" {
@@ -609,10 +636,20 @@ func (c *caseRun) chainLabels() []int {
 // ---------------------------------------------------------------- operations
 
 func (c *caseRun) record(step int, kind string, iop string, flag bool, pre, post *protocol.VerifPoolSnapshot) {
+	c.recordN(step, kind, iop, []bool{flag}, false, pre, post)
+}
+
+func (c *caseRun) recordN(step int, kind string, iop string, flags []bool, round bool, pre, post *protocol.VerifPoolSnapshot) {
 	c.oracle(step, kind, c.submitted, pre, post)
-	c.submitted = nil
+	c.submitted, c.exempt, c.exemptAll = nil, nil, false
 	c.iops = append(c.iops, iop)
-	c.obs = append(c.obs, fmt.Sprintf("(%s, %s)", CoqBool(flag), c.dump(post)))
+	var entries []string
+	d := c.dump(post)
+	for _, f := range flags {
+		entries = append(entries, fmt.Sprintf("(%s, %s)", CoqBool(f), d))
+	}
+	c.obs = append(c.obs, entries)
+	c.isRound = append(c.isRound, round)
 	// Outside the guard what processOrphans does next may depend on Go's map order (an orphan that is
 	// not indexed under a missing parent is promoted or not depending on when it is looked at): the
 	// model is compared up to and including the step that left the guard; the oracle keeps running.
@@ -687,7 +724,7 @@ func (c *caseRun) apply(step int, op OpSpec) error {
 		} else if d == 1 && !isOrphan && len(pre.Orphans) > len(post.Orphans) && !wasOrphan {
 			c.counts["event:promotion-chain"]++
 		}
-		c.submitted = t
+		c.submitted = []*txInfo{t}
 		c.record(step, "submit", fmt.Sprintf("ISubmit %d %d", c.clock, op.T-1), isOrphan, pre, post)
 	case "remove":
 		var h bc.Hash
@@ -776,7 +813,7 @@ func (c *caseRun) apply(step int, op OpSpec) error {
 			os_ = append(os_, oe{h, t, le})
 		}
 		sort.Slice(os_, func(i, j int) bool { return os_[i].real.Before(os_[j].real) })
-		for i := 1; i < len(os_); i++ {
+		for i := 1; i < len(os_) && !c.hadRound; i++ {
 			if !(os_[i-1].log < os_[i].log) || !os_[i-1].real.Before(os_[i].real) {
 				return fmt.Errorf("orphan expirations are not ordered like their submissions")
 			}
@@ -790,6 +827,9 @@ func (c *caseRun) apply(step int, op OpSpec) error {
 		mode := op.Mode
 		if len(os_) == 0 && (mode == "at" || mode == "after") {
 			mode = "all"
+		}
+		if c.hadRound && (mode == "at" || mode == "after") {
+			mode = "all" // orphans parked in one round: no expiration boundary between them is aimed at
 		}
 		if mode == "at" && cut >= len(os_) {
 			mode = "after"
@@ -811,6 +851,93 @@ func (c *caseRun) apply(step int, op OpSpec) error {
 		post := c.snapshot()
 		c.counts[fmt.Sprintf("expire:%s:removed-%d", mode, len(pre.Orphans)-len(post.Orphans))]++
 		c.record(step, "expire", fmt.Sprintf("IExpire %d", logNow), false, pre, post)
+	case "round":
+		rs := op.Round
+		c.hadRound = true
+		ro, err := c.runRound(rs)
+		if err == errHang {
+			c.fail(step, "round-hang", fmt.Sprintf("concurrent round %+v: a submission did not return within 20 s", *rs))
+			return err
+		}
+		if err != nil {
+			return err
+		}
+		post := c.snapshot()
+		c.counts[fmt.Sprintf("round:%d-submissions", len(rs.Subs))]++
+		c.counts[fmt.Sprintf("round:%d-gated", len(rs.Gated))]++
+		// a removal inside the round may take an output away from under an orphan and the
+		// output may be back before the round ends: every orphan (old or parked in this round)
+		// that spends an output of a removed transaction is marked like noteWithdrawals does
+		if len(ro.removed) > 0 || ro.expired {
+			c.counts["round:with-removal-or-expiry"]++
+			c.exempt, c.exemptAll = map[int]bool{}, ro.expired
+			for _, l := range ro.removed {
+				c.exempt[l] = true
+			}
+			if c.cut < 0 { // the position of the removal among the submissions is not known: model compared up to here
+				c.cut = len(c.iops)
+				c.counts["compare:prefix-only"]++
+			}
+			c.noteWithdrawals(pre, post, c.chain)
+			for _, l := range ro.removed {
+				rt := c.univ[l-1]
+				marks := func(t *txInfo) {
+					for _, o := range t.Tx.SpentOutputIDs {
+						for _, id := range rt.Tx.ResultIds {
+							if o == *id {
+								if c.withdr[t.Tx.ID] == nil {
+									c.withdr[t.Tx.ID] = map[bc.Hash]bool{}
+								}
+								c.withdr[t.Tx.ID][o] = true
+								c.outside = true
+								c.counts["event:withdrawal-in-round"]++
+							}
+						}
+					}
+				}
+				for h := range pre.Orphans {
+					if t, ok := c.byID[h]; ok {
+						marks(t)
+					}
+				}
+				for h := range post.Orphans {
+					if t, ok := c.byID[h]; ok {
+						marks(t)
+					}
+				}
+			}
+		}
+		var subs []string
+		flags := make([]bool, 0, len(rs.Subs))
+		for j, k := range ro.order {
+			t := c.univ[rs.Subs[k]-1]
+			now := c.clock + uint64(j)
+			if ro.flags[k] {
+				c.logExp[t.Tx.ID] = now + ttlTicks
+				c.counts["round-submit:orphan"]++
+			} else {
+				c.counts["round-submit:pooled"]++
+			}
+			for _, other := range c.univ {
+				if other != t && (c.subm[other.Label] || inRound(rs, other.Label)) && len(other.Outs) > 0 && len(t.Outs) > 0 && other.Outs[0] == t.Outs[0] {
+					c.outside = true
+					c.counts["event:twin-submitted"]++
+				}
+			}
+			subs = append(subs, fmt.Sprintf("(%d, %d)", now, rs.Subs[k]-1))
+			flags = append(flags, ro.flags[k])
+			c.submitted = append(c.submitted, t)
+		}
+		for _, l := range rs.Subs {
+			c.subm[l] = true
+		}
+		if d := len(post.Pool) - len(pre.Pool); d > 0 {
+			c.counts[fmt.Sprintf("round:pool-grew-by-%d", d)]++
+		}
+		if len(post.Orphans) > 0 {
+			c.counts["round:orphans-left"]++
+		}
+		c.recordN(step, "submit", "CRound ["+strings.Join(subs, "; ")+"]", flags, true, pre, post)
 	case "reject":
 		c.rejectK++
 		root := c.e.roots[(c.rejectK*5+3)%len(c.e.roots)]
@@ -830,6 +957,15 @@ func (c *caseRun) apply(step int, op OpSpec) error {
 		return fmt.Errorf("unknown operation %q", op.K)
 	}
 	return nil
+}
+
+func inRound(rs *RoundSpec, l int) bool {
+	for _, x := range rs.Subs {
+		if x == l {
+			return true
+		}
+	}
+	return false
 }
 
 // ---------------------------------------------------------------- generators
@@ -987,6 +1123,113 @@ type genState struct {
 	r    *Rng
 	c    *caseRun
 	left int
+	conc bool // concurrent stream: rounds among the operations
+}
+
+// a concurrent round chosen from what the pool looks like now: 2-4 submissions (a fresh
+// transaction together with one of its unpooled parents more often than not, orphans and
+// now and then an already pooled / confirmed transaction or the same transaction twice),
+// a random non-empty subset of them gated, the gates opened in random order, sometimes a
+// RemoveTransaction or an ExpireOrphan(all) in between
+func (g *genState) round(s *protocol.VerifPoolSnapshot) *OpSpec {
+	c, r := g.c, g.r
+	pooled := map[bc.Hash]bool{}
+	for _, h := range s.Pool {
+		pooled[h] = true
+	}
+	var cand, other []int
+	for _, t := range c.univ {
+		_, orphan := s.Orphans[t.Tx.ID]
+		switch {
+		case pooled[t.Tx.ID] || c.conf[t.Label]:
+			other = append(other, t.Label)
+		case orphan || !c.subm[t.Label]:
+			cand = append(cand, t.Label)
+		default:
+			cand = append(cand, t.Label) // seen, then removed or expired
+		}
+	}
+	if len(cand) < 2 {
+		return nil
+	}
+	k := 2 + r.Intn(3)
+	chosen := map[int]bool{}
+	var subs []int
+	take := func(l int) {
+		if !chosen[l] && len(subs) < k {
+			chosen[l] = true
+			subs = append(subs, l)
+		}
+	}
+	isCand := map[int]bool{}
+	for _, l := range cand {
+		isCand[l] = true
+	}
+	if r.Chance(65) {
+		// a child and one of its parents that is not pooled yet
+		var pairs [][2]int
+		for _, l := range cand {
+			t := c.univ[l-1]
+			for _, in := range t.Ins {
+				if in >= rootLabel {
+					continue
+				}
+				if p := in / 8; p >= 1 && p <= len(c.univ) && isCand[p] && p != l {
+					pairs = append(pairs, [2]int{p, l})
+				}
+			}
+		}
+		if len(pairs) > 0 {
+			pr := pairs[r.Intn(len(pairs))]
+			take(pr[0])
+			take(pr[1])
+		}
+	}
+	for tries := 0; tries < 12 && len(subs) < k; tries++ {
+		take(cand[r.Intn(len(cand))])
+	}
+	if len(other) > 0 && r.Chance(15) {
+		subs = append(subs, other[r.Intn(len(other))])
+	}
+	if r.Chance(10) {
+		subs = append(subs, subs[r.Intn(len(subs))]) // the same transaction from two peers
+	}
+	for i := len(subs) - 1; i > 0; i-- {
+		j := r.Intn(i + 1)
+		subs[i], subs[j] = subs[j], subs[i]
+	}
+	var gated []int
+	seenG := map[int]bool{}
+	for _, l := range subs {
+		if !seenG[l] && r.Chance(60) {
+			seenG[l] = true
+			gated = append(gated, l)
+		}
+	}
+	if len(gated) == 0 {
+		gated = []int{subs[r.Intn(len(subs))]}
+	}
+	var sched []string
+	for _, i := range perm(r, len(gated)) {
+		sched = append(sched, "g"+strconv.Itoa(gated[i]))
+	}
+	ins := func(ev string) {
+		p := r.Intn(len(sched) + 1)
+		sched = append(sched[:p], append([]string{ev}, sched[p:]...)...)
+	}
+	if r.Chance(22) {
+		var ls []int
+		for _, h := range s.Pool {
+			ls = append(ls, c.lbl(h))
+		}
+		sort.Ints(ls)
+		ls = append(ls, subs...)
+		ins("r" + strconv.Itoa(ls[r.Intn(len(ls))]))
+	}
+	if r.Chance(6) {
+		ins("x")
+	}
+	return &OpSpec{K: "round", Round: &RoundSpec{Subs: subs, Gated: gated, Sched: sched}}
 }
 
 // choose the next operation from what the pool looks like now
@@ -1015,6 +1258,11 @@ func (g *genState) next() *OpSpec {
 	sort.Ints(ready)
 	if len(ready) > 0 && r.Chance(60) {
 		return &OpSpec{K: "submit", T: ready[r.Intn(len(ready))]}
+	}
+	if g.conc && r.Chance(45) {
+		if op := g.round(s); op != nil {
+			return op
+		}
 	}
 	// a block that confirms the missing, never pooled parent of an orphan
 	if len(s.Orphans) > 0 && r.Chance(12) {
@@ -1196,7 +1444,7 @@ func txCoq(t *txInfo) string {
 	return fmt.Sprintf("mkTx %d %s [%s]", t.Label, intList(t.Ins), strings.Join(outs, "; "))
 }
 
-func runCase(e *env, r *Rng, idx int, spec CaseSpec, scripted bool, nops int) (*CaseResult, error) {
+func runCase(e *env, r *Rng, idx int, spec CaseSpec, scripted bool, nops int, conc bool) (*CaseResult, error) {
 	c, err := e.newCase(r, spec)
 	if err != nil {
 		return nil, err
@@ -1207,12 +1455,15 @@ func runCase(e *env, r *Rng, idx int, spec CaseSpec, scripted bool, nops int) (*
 	if scripted {
 		for i, op := range spec.Ops {
 			if err := c.apply(i, op); err != nil {
+				if len(c.fails) > 0 {
+					break // the oracle has already failed on this case: report that, not what it leads to
+				}
 				return nil, fmt.Errorf("case %d (%s) step %d: %v", idx, spec.Shape, i, err)
 			}
 		}
 		ops = spec.Ops
 	} else {
-		g := &genState{r: r, c: c, left: nops}
+		g := &genState{r: r, c: c, left: nops, conc: conc}
 		for i := 0; ; i++ {
 			op := g.next()
 			if op == nil {
@@ -1220,6 +1471,9 @@ func runCase(e *env, r *Rng, idx int, spec CaseSpec, scripted bool, nops int) (*
 			}
 			ops = append(ops, *op)
 			if err := c.apply(i, *op); err != nil {
+				if len(c.fails) > 0 {
+					break
+				}
 				return nil, fmt.Errorf("case %d (%s) step %d %+v: %v", idx, spec.Shape, i, *op, err)
 			}
 		}
@@ -1231,11 +1485,30 @@ func runCase(e *env, r *Rng, idx int, spec CaseSpec, scripted bool, nops int) (*
 		txs = append(txs, txCoq(t))
 	}
 	res := &CaseResult{Idx: idx, Spec: c.spec, Counts: c.counts, Nontrivial: c.sawOrph && c.sawPool, Fails: c.fails}
-	iops, obs := c.iops, c.obs
-	if c.cut >= 0 {
-		iops, obs = iops[:c.cut], obs[:c.cut]
+	n := len(c.iops)
+	if c.cut >= 0 && c.cut < n {
+		n = c.cut
 	}
-	res.Model = fmt.Sprintf("run_case %s [%s] [%s]", intList(c.chain0), strings.Join(txs, "; "), strings.Join(iops, "; "))
+	if len(c.fails) > 0 && len(c.obs) < n {
+		n = len(c.obs)
+	}
+	var iops, obs []string
+	for i := 0; i < n; i++ {
+		switch {
+		case !c.hadRound:
+			iops = append(iops, c.iops[i])
+		case c.isRound[i]:
+			iops = append(iops, c.iops[i])
+		default:
+			iops = append(iops, "CSeq ("+c.iops[i]+")")
+		}
+		obs = append(obs, c.obs[i]...)
+	}
+	runner := "run_case"
+	if c.hadRound {
+		runner = "run_case_conc"
+	}
+	res.Model = fmt.Sprintf("%s %s [%s] [%s]", runner, intList(c.chain0), strings.Join(txs, "; "), strings.Join(iops, "; "))
 	res.Observed = "Some [" + strings.Join(obs, "; ") + "]"
 	return res, nil
 }
@@ -1263,11 +1536,22 @@ func childBatch(args []string) int {
 		out.Flush()
 	}
 	idx := a.First
+	if a.Replay != nil {
+		fmt.Fprintf(out, "BEGIN %d\n", idx)
+		out.Flush()
+		res, err := runCase(e, r, idx, *a.Replay, true, 0, false)
+		if err != nil {
+			fmt.Fprintln(os.Stderr, "harness child error:", err)
+			return 3
+		}
+		emit(res)
+		return 0
+	}
 	if a.Corpus {
 		for _, spec := range corpus() {
 			fmt.Fprintf(out, "BEGIN %d\n", idx)
 			out.Flush()
-			res, err := runCase(e, r, idx, spec, true, 0)
+			res, err := runCase(e, r, idx, spec, true, 0, false)
 			if err != nil {
 				fmt.Fprintln(os.Stderr, "harness child error:", err)
 				return 3
@@ -1281,7 +1565,11 @@ func childBatch(args []string) int {
 		out.Flush()
 		shape, univ := genUniverse(r)
 		nops := 5 + r.Intn(12)
-		res, err := runCase(e, r, idx, CaseSpec{Shape: shape, Univ: univ}, false, nops)
+		if a.Conc {
+			shape = "conc:" + shape
+			nops = 3 + r.Intn(8)
+		}
+		res, err := runCase(e, r, idx, CaseSpec{Shape: shape, Univ: univ}, false, nops, a.Conc)
 		if err == errTooSmall {
 			k--
 			continue
@@ -1363,7 +1651,7 @@ func runBatch(a BatchArgs) batchOut {
 }
 
 func runC22(c *Ctx) error {
-	c.Stats.Rule = "transaction DAGs over 12 confirmed OP_TRUE roots of a real chain (chain, diamond, fan, multi-parent orphan with its inputs in random order, two families, random DAG with occasional double spends; retirement and vote outputs; 6% with a twin transaction) and 5-16 operations chosen from the pool's current state: submit a fresh transaction (children before parents more often than not), re-submit a pooled / orphaned / confirmed one, RemoveTransaction (pooled, unknown or other id), confirm a block of spendable transactions on the real chain, ExpireOrphan at / just after an orphan's expiration / before all / after all, refused dust or overspending transaction; a fixed corpus (parents of a 2- and 3-parent orphan in every arrival order, re-submission after confirmation, removal of an unconfirmed parent, twins, expiry boundary) runs first; distinct = distinct (universe, operation list); non-trivial = the case had at least one orphan and at least one pooled transaction"
+	c.Stats.Rule = "transaction DAGs over 12 confirmed OP_TRUE roots of a real chain (chain, diamond, fan, multi-parent orphan with its inputs in random order, two families, random DAG with occasional double spends; retirement and vote outputs; 6% with a twin transaction) and 5-16 operations chosen from the pool's current state: submit a fresh transaction (children before parents more often than not), re-submit a pooled / orphaned / confirmed one, RemoveTransaction (pooled, unknown or other id), confirm a block of spendable transactions on the real chain, ExpireOrphan at / just after an orphan's expiration / before all / after all, refused dust or overspending transaction; a fixed corpus (parents of a 2- and 3-parent orphan in every arrival order, re-submission after confirmation, removal of an unconfirmed parent, twins, expiry boundary) runs first; a concurrent stream (shape conc:*) mixes the same operations with rounds: 2-6 ValidateTx calls from goroutines of their own (a child together with an unpooled parent in 65% of the rounds, orphans, sometimes a pooled / confirmed transaction or one transaction twice), lined up behind the chain's state lock after their HaveTransaction check, then released into the pool with the store lookups of a random subset stalled and released in a random order, each step taken once every goroutine is finished, stalled or queued on the pool's lock; 22% of the rounds with a RemoveTransaction and 6% with an ExpireOrphan in between; the oracle is applied to the state the round leaves, the model to the linearisation read off the order of the submissions' own store lookups; distinct = distinct (universe, operation list); non-trivial = the case had at least one orphan and at least one pooled transaction"
 	total := c.N(500, 3000)
 	per := 50
 	if c.Thorough() {
@@ -1388,6 +1676,21 @@ func runC22(c *Ctx) error {
 	var batches []BatchArgs
 	ncorpus := len(corpus())
 	first := 0
+	var replay *CaseSpec
+	if c.Replay != "" {
+		// a replay file carries the failing case (universe + the operation list as it was run,
+		// rounds with their schedules included) in failure.case.case
+		var rp struct {
+			Failure struct {
+				Case struct {
+					Case *CaseSpec `json:"case"`
+				} `json:"case"`
+			} `json:"failure"`
+		}
+		if raw, err := os.ReadFile(c.Replay); err == nil && json.Unmarshal(raw, &rp) == nil && rp.Failure.Case.Case != nil {
+			replay = rp.Failure.Case.Case
+		}
+	}
 	for k := 0; first < total+ncorpus; k++ {
 		a := BatchArgs{Seed: c.Rng.Next(), First: first, N: per, Corpus: k == 0, Dir: filepath.Join(base, fmt.Sprintf("b%d", k)), Tmpl: tmpl}
 		if k == 0 {
@@ -1396,6 +1699,21 @@ func runC22(c *Ctx) error {
 		if first+a.N > total+ncorpus {
 			a.N = total + ncorpus - first
 		}
+		first += a.N
+		batches = append(batches, a)
+	}
+	// the concurrent stream
+	concTotal := c.N(320, 2000)
+	if replay != nil {
+		batches = []BatchArgs{{Seed: c.Rng.Next(), First: 0, Replay: replay, Dir: filepath.Join(base, "replay"), Tmpl: tmpl}}
+		concTotal = 0
+	}
+	for k := 0; concTotal > 0; k++ {
+		a := BatchArgs{Seed: c.Rng.Next(), First: first, N: per, Conc: true, Dir: filepath.Join(base, fmt.Sprintf("c%d", k)), Tmpl: tmpl}
+		if a.N > concTotal {
+			a.N = concTotal
+		}
+		concTotal -= a.N
 		first += a.N
 		batches = append(batches, a)
 	}
